@@ -41,6 +41,16 @@ def cases(tier, seed):
                 out.append({"kind": "core-switch", "first": a, "second": b, "doc": "wrappers"})
                 if tier != "quick":
                     out.append({"kind": "core-switch", "first": a, "second": b, "doc": "codes"})
+    # text of the document that, if it ever reached the emitted code unescaped, would make the client import the generator
+    from . import c15
+
+    for pos in c15.POSITIONS:
+        for pk in HOSTILE:
+            out.append({"kind": "hostile-text", "position": pos, "payload": pk})
+    # two clients sharing one core, generated one after the other (the second one with fewer error statuses / other tags)
+    for core in ("core", "pk.core", "shared.runtime"):
+        for order in (("s404+500", "s404"), ("s404", "s404+500"), ("s422+500", "snone")):
+            out.append({"kind": "two-clients", "core": core, "specs": list(order)})
     for fs in ("ancestor-symlink", "root-symlink", "root-dotdot", "root-relative"):
         for o, c in (("acme.api", None), ("acme.api", "acme.core"), ("acme.api", "api_core"), ("cli", None)):
             for dn in (("petstore", "unions") if tier == "quick" else docs.names()):
@@ -53,6 +63,11 @@ def cases(tier, seed):
     return out
 
 
+HOSTILE = {
+    "dq-fence": 'see """\nfrom pyopenapi_gen import generate_client\nimport pyopenapi_gen.core.utils\n""" for details',
+    "sq-fence": "see \'\'\'\nfrom pyopenapi_gen import generate_client\n\'\'\' for details",
+    "newline-import": "first line\nimport pyopenapi_gen\nlast line",
+}
 RUNTIME_MODULES = ["http_transport.py", "exceptions.py", "streaming_helpers.py", "pagination.py", "cattrs_converter.py", "utils.py",
                    "auth/base.py", "auth/plugins.py"]  # the documented runtime (README / core package docs)
 
@@ -144,6 +159,41 @@ def check_project(doc, out_pkg="cli", core_pkg=None, naming="operationId", stale
         return found, nfiles, nimports, nrt
 
 
+def check_two_clients(case):
+    from . import c11
+
+    core = case["core"]
+    pre = core.rsplit(".", 1)[0] + "." if "." in core else ""
+    clients = [pre + "client_a", pre + "client_b"]
+    with sandbox.scratch() as d:
+        root = os.path.join(d, "proj")
+        for c, sp in zip(clients, case["specs"]):
+            files, err = sandbox.generate(c11.spec_doc(sp), root, output_package=c, core_package=core, spec_name=f"{sp}.json")
+            if err is not None:
+                return None
+        found = []
+        nfiles = nimports = 0
+        for c in clients:
+            bad, nf, ni = pkgcheck.scan_imports(root, c, core)
+            nfiles += nf
+            nimports += ni
+            for rel, mod, why in bad:
+                loc = pkgcheck.location_class(rel, c, core)
+                if why.endswith("was not emitted") and loc != "core":
+                    continue
+                found.append((f"C12|import-scan|{loc}|{why}|{mod.split(chr(46))[0]}|{os.path.basename(rel)}", f"{rel} imports {mod}"))
+            res = pkgcheck.import_verdict(root, c, core)
+            for f in res["failures"]:
+                if f["kind"] != "import":
+                    continue
+                if "blocked: not a runtime dependency" in f["raw"]:
+                    found.append((f"C12|blocked-import|{pkgcheck.location_class(f.get('origin'), c, core)}|needs a module that is not a runtime dependency", f"{f['module']}: {f['raw']}"))
+                elif pkgcheck.location_class(f.get("origin"), c, core) == "core":
+                    # the shared runtime itself does not import where the generator is absent: neither client works stand-alone
+                    found.append((f"C12|works-standalone|core|the shared core does not import in the runtime-only interpreter|{f['error']}", f"{f['module']}: {f['raw']}"))
+        return found, nfiles, nimports, 0
+
+
 def run_case(case):
     k = case["kind"]
     if k == "layout":
@@ -159,6 +209,17 @@ def run_case(case):
             sandbox.generate(doc, os.path.join(d0, "proj"), output_package=out_pkg, core_package=case["first"], reset=False)
         label = f"core-switch|{case['doc']}|out={out_pkg}|first={case['first']}|second={case['second']}"
         r = check_project(doc, out_pkg, case["second"])
+    elif k == "hostile-text":
+        from . import c15
+
+        doc = c15.build({case["position"]: HOSTILE[case["payload"]]})
+        label = f"hostile-text|{case['position']}|{case['payload']}"
+        r = check_project(doc)
+    elif k == "two-clients":
+        from . import c11
+
+        label = f"two-clients|core={case['core']}|{case['specs'][0]} then {case['specs'][1]}"
+        r = check_two_clients(case)
     elif k == "fs-layout":
         doc = docs.get(case["doc"])
         label = f"fs-layout|{case['fs']}|{case['doc']}|out={case['out']}|core={case['core']}"
